@@ -123,6 +123,14 @@ structure SBuilder where
   depth : Nat
   level : Nat
 
+/-- the plain meaning of an update map: a sorted association; plus what a `MaxMap` reports as its
+largest key (it is raised only by `insert`), and whether some entry was created through
+`get_mut_with` (then a `MaxMap`'s report and its derived `==` are not functions of the contents). -/
+structure SMap where
+  assoc : List (Nat × V) := []
+  insMax : Nat := 0
+  viaEntry : Bool := false
+
 structure World where
   E : Elem V Hh
   cfg : Cfg
@@ -133,6 +141,9 @@ structure World where
   scolls : List (Nat × SColl)
   strees : List (Nat × STree)
   sbuilders : List (Nat × SBuilder)
+  /-- update maps used directly (`m…` operations): the model's `UMap` and the plain association -/
+  maps : List (Nat × UMap V) := []
+  smaps : List (Nat × SMap) := []
   /-- model / spec bytes of the last `ssz`, values of the last `ser`, result of the last `lvnodes` -/
   lastSsz : List UInt8 × List UInt8 := ([], [])
   lastSer : List V × List V := ([], [])
@@ -608,6 +619,145 @@ def step (w : World) (line : String) : World × Out :=
             else (w1, "err *")
           (w2, (m, sp))
       | _, _ => badop
+    | _, _ => badop
+  -- ---- update maps through the public `UpdateMap` trait ----
+  | ["mnew", ms] | ["mcap", ms, _] =>
+    match parseNat ms with
+    | some ms => ({ w with maps := slotSet w.maps ms (UMap.empty cfg.map), smaps := slotSet w.smaps ms {} }, ("ok", "ok"))
+    | none => badop
+  | ["mclone", a, b] =>
+    match parseNat a, parseNat b with
+    | some a, some b =>
+      match slotGet w.maps a, slotGet w.smaps a with
+      | some m, some sm => ({ w with maps := slotSet w.maps b m, smaps := slotSet w.smaps b sm }, ("ok", "ok"))
+      | _, _ => badop
+    | _, _ => badop
+  | ["mins", ms, k, v] =>
+    match parseNat ms, parseNat k, bytesOfHex v with
+    | some ms, some k, some v =>
+      match slotGet w.maps ms, slotGet w.smaps ms with
+      | some m, some sm =>
+        let f : Option V → String := fun o => match o with
+          | some v => s!"ok some {hexOfBytes v}"
+          | none => "ok none"
+        ({ w with maps := slotSet w.maps ms (m.insert k v),
+                  smaps := slotSet w.smaps ms { sm with assoc := assocInsert k v sm.assoc, insMax := max sm.insMax k } },
+          (f (m.get k), f (assocGet k sm.assoc)))
+      | _, _ => badop
+    | _, _, _ => badop
+  | ["mget", ms, k] =>
+    match parseNat ms, parseNat k with
+    | some ms, some k =>
+      match slotGet w.maps ms, slotGet w.smaps ms with
+      | some m, some sm =>
+        let f : Option V → String := fun o => match o with
+          | some v => s!"some {hexOfBytes v}"
+          | none => "none"
+        (w, (f (m.get k), f (assocGet k sm.assoc)))
+      | _, _ => badop
+    | _, _ => badop
+  | ["mgm", ms, k, fv, x] =>
+    match parseNat ms, parseNat k, bytesOfHex x with
+    | some ms, some k, some x =>
+      let backing : Option (Option V) := if fv = "none" then some none else (bytesOfHex fv).map some
+      match backing, slotGet w.maps ms, slotGet w.smaps ms with
+      | some backing, some m, some sm =>
+        let (w1, mo) : World × String := match m.getMutSet k backing x with
+          | some (old, m') => ({ w with maps := slotSet w.maps ms m' }, s!"ok {hexOfBytes old}")
+          | none => (w, "none")
+        let (sm', so) : SMap × String := match assocGet k sm.assoc with
+          | some old => ({ sm with assoc := assocInsert k x sm.assoc }, s!"ok {hexOfBytes old}")
+          | none => match backing with
+            | some b => ({ sm with assoc := assocInsert k x sm.assoc, viaEntry := true }, s!"ok {hexOfBytes b}")
+            | none => (sm, "none")
+        ({ w1 with smaps := slotSet w1.smaps ms sm' }, (mo, so))
+      | _, _, _ => badop
+    | _, _, _ => badop
+  | ["mlen", ms] =>
+    match parseNat ms with
+    | some ms =>
+      match slotGet w.maps ms, slotGet w.smaps ms with
+      | some m, some sm => (w, (s!"ok {m.len}", s!"ok {sm.assoc.length}"))
+      | _, _ => badop
+    | none => badop
+  | ["misempty", ms] =>
+    match parseNat ms with
+    | some ms =>
+      match slotGet w.maps ms, slotGet w.smaps ms with
+      | some m, some sm => (w, (fmtBool m.isEmpty, fmtBool sm.assoc.isEmpty))
+      | _, _ => badop
+    | none => badop
+  | ["mmax", ms] =>
+    match parseNat ms with
+    | some ms =>
+      match slotGet w.maps ms, slotGet w.smaps ms with
+      | some m, some sm =>
+        let f : Option Nat → String := fun o => match o with
+          | some k => s!"some {k}"
+          | none => "none"
+        let sp := if sm.assoc.isEmpty then "none"
+          else match cfg.map with
+            | .maxvec => if sm.viaEntry then "*" else f (some sm.insMax)
+            | _ => f (sm.assoc.getLast?.map (·.1))
+        (w, (f m.maxIndex, sp))
+      | _, _ => badop
+    | none => badop
+  | "mrange" :: ms :: st :: en :: rest =>
+    match parseNat ms, parseNat st, parseNat en with
+    | some ms, some st, some en =>
+      match slotGet w.maps ms, slotGet w.smaps ms with
+      | some m, some sm =>
+        let cut : Option (String × Nat) := match rest with
+          | [] => some ("all", 0)
+          | [md, j] => (parseNat j).map (fun j => (md, j))
+          | _ => none
+        match cut with
+        | none => badop
+        | some (md, j) =>
+          let render (es : List (Nat × V)) : String :=
+            let (vis, okk) : List (Nat × V) × Bool :=
+              if md = "all" ∨ j = 0 ∨ es.length < j then (es, true)
+              else (es.take j, md ≠ "err")
+            (if okk then "ok" else "err") ++ String.join (vis.map (fun p => s!" {p.1}:{hexOfBytes p.2}"))
+          (w, (render (m.range st en), render (sm.assoc.filter (fun p => st ≤ p.1 && p.1 < en))))
+      | _, _ => badop
+    | _, _, _ => badop
+  | ["meq", a, b] =>
+    match parseNat a, parseNat b with
+    | some a, some b =>
+      match slotGet w.maps a, slotGet w.maps b, slotGet w.smaps a, slotGet w.smaps b with
+      | some ma, some mb, some sa, some sb =>
+        let sp := if cfg.map = .maxvec ∧ (sa.viaEntry ∨ sb.viaEntry) then "*"
+          else fmtBool (decide (sa.assoc = sb.assoc))
+        (w, (fmtBool (ma.beq mb), sp))
+      | _, _, _, _ => badop
+    | _, _ => badop
+  | ["mbulk", hs, ms] =>
+    match parseNat hs, parseNat ms with
+    | some hs, some ms =>
+      match slotGet w.colls hs, slotGet w.scolls hs, slotGet w.maps ms, slotGet w.smaps ms with
+      | some c, some s, some m, some sm =>
+        if s.kind = .vector ∨ s.rep.isSome then badop
+        else
+          let (w1, mo) : World × String := match c.bulkUpdate cfg m with
+            | .ok c' => ({ w with colls := slotSet w.colls hs c' }, "ok")
+            | .error e => (w, fmtErr e)
+          let reported : Option Nat := if sm.assoc.isEmpty then none
+            else match cfg.map with
+              | .maxvec => some sm.insMax
+              | _ => sm.assoc.getLast?.map (·.1)
+          let admissible : Bool := match reported with
+            | none => true
+            | some mx => decide (mx < cfg.N) &&
+                (Coll.gapCheckMax mx s.xs.length (sm.assoc.filter (fun p => p.1 ≥ s.xs.length))).isNone
+          let (w2, sp) : World × String :=
+            if s.dirty then (w1, "err BulkUpdateUnclean")
+            else if admissible then
+              let xs' := sm.assoc.foldl (fun acc kv => if kv.1 < acc.length then acc.set kv.1 kv.2 else acc ++ [kv.2]) s.xs
+              ({ w1 with scolls := slotSet w1.scolls hs { s with xs := xs', dirty := !sm.assoc.isEmpty } }, "ok")
+            else (w1, "err *")
+          (w2, (mo, sp))
+      | _, _, _, _ => badop
     | _, _ => badop
   | ["pop", hs, n] =>
     match parseNat hs, parseNat n with
